@@ -151,7 +151,12 @@ def gen_graph(ints, for_prebuild=False):
              ('bridge', 'b1', 'MYEE')]
     n = 3 + t.pick(len(specs) - 2)
     features = set()
-    for kind, name, cls in specs[:n]:
+    t0 = t
+    for j, (kind, name, cls) in enumerate(specs[:n]):
+        # every callable reads the tape from its own starting point (wrapping around): the later ones are not starved
+        # when the earlier ones used the tape up
+        off = (j * len(ints)) // n
+        t = Tape(list(ints[off:]) + list(ints[:off])) if j else t0
         if kind == 'derived':
             c = Callable(kind, name, [], 'int', cls)
         else:
@@ -165,6 +170,10 @@ def gen_graph(ints, for_prebuild=False):
                 if pn not in [x[0] for x in params]:
                     params.append((pn, pt))
             c = Callable(kind, name, params, ret, cls)
+            # some parameters / results are declared with a user data type based on the core type
+            c.udt = set(pn for pn, pt in params if pt in UDT_OF and t.flag())
+            if ret in UDT_OF and t.pick(4) == 0:
+                c.udt.add('')
         hooks = CallHooks(list(order))
         g = Gen(t, max_stmts=5, max_depth=2, calls=hooks if order else None, params=dict(c.params),
                 self_cls=cls if kind in ('instop', 'derived') else None, ret_ty=c.ret if kind != 'derived' else None,
@@ -197,7 +206,25 @@ def gen_graph(ints, for_prebuild=False):
             features.add('param-shadowed')
         else:
             shadowed = []
+        for pn, pt in c.params:
+            if pt == 'bool' and pn in getattr(c, 'udt', ()) and t.flag():
+                # a value of a user data type as the left operand of a logical operator: the result is a boolean
+                bv = env.fresh('b')
+                stmts.append(N('AssignmentNode', variable_access=g.var(bv), expression=N(
+                    'BinaryOperationNode', left=N('ParamAccessNode', variable_name=pn, _kw='param'),
+                    operator=t.choice(['and', 'or']), right=g.expr(env, 'bool', 1))))
+                env.set(bv, {'ty': 'bool'})
         stmts += g.stmts(env, 2, False, top=True, minimum=1)
+        if kind == 'derived' and t.flag():
+            # early out: the value assigned before a bare return is the value of the attribute
+            SF = lambda f: N('FieldAccessNode', handle=N('SelfAccessNode'), name=f)
+            cond = N('BinaryOperationNode', left=SF('n'), operator=t.choice(['<', '>', '>=', '!=']),
+                     right=N('IntegerNode', value=t.choice(['0', '3', '7', '12'])))
+            stmts.append(N('IfNode', expression=cond, block=block([
+                N('AssignmentNode', variable_access=SF(name), expression=N('BinaryOperationNode', left=SF('n'), operator='-',
+                                                                           right=g.expr(env, 'int', 1))),
+                N('ReturnNode', expression=None)]), elif_list=N('ElIfListNode', children=[]), else_clause=None))
+            features.add('derived-early-return')
         if kind == 'derived':
             stmts.append(N('AssignmentNode', variable_access=N('FieldAccessNode', handle=N('SelfAccessNode'), name=name),
                            expression=N('BinaryOperationNode', left=N('FieldAccessNode', handle=N('SelfAccessNode'), name='n'),
@@ -235,7 +262,7 @@ def gen_graph(ints, for_prebuild=False):
         c.body = N('BodyNode', block=block(stmts))
         features |= g.features
         order.append(c)
-    return order, features, t
+    return order, features, t0
 
 
 def text_of(body):
@@ -244,21 +271,29 @@ def text_of(body):
     return render(p.toks, [' '])[0]
 
 
+UDT_OF = {'bool': 'Flag', 'int': 'Count'}
+UDT_BASE = {'Flag': 'boolean', 'Count': 'integer'}
+
+
 def diagram_with(callables, enum_order):
     D, ix = base_diagram()
     D['types'].append({'name': 'Color', 'kind': 'enum', 'enumerators': list(ENUM), 'parent': ['pkg', 2]})
     D['constants'].append({'name': 'Limits', 'parent': ['pkg', 2],
                            'items': [{'name': n, 'type': ty, 'value': v} for n, ty, v in CONSTS]})
     ee = {'name': 'My EE', 'kl': 'MYEE', 'parent': ['pkg', 2], 'bridges': []}
+    for udt, base in sorted(UDT_BASE.items()):
+        D['types'].append({'name': udt, 'kind': 'udt', 'base': base, 'parent': ['pkg', 2]})
     for c in callables:
-        params = [[pn, TY_BP[pt]] for pn, pt in c.params]
+        udt = getattr(c, 'udt', ())
+        params = [[pn, UDT_OF[pt] if pn in udt else TY_BP[pt]] for pn, pt in c.params]
+        ret = UDT_OF[c.ret] if '' in udt else TY_BP[c.ret]
         c.text = text_of(c.body)
         if c.kind == 'function':
-            D['functions'].append({'name': c.name, 'ret': TY_BP[c.ret], 'params': params, 'body': c.text, 'parent': ['pkg', 2]})
+            D['functions'].append({'name': c.name, 'ret': ret, 'params': params, 'body': c.text, 'parent': ['pkg', 2]})
         elif c.kind == 'bridge':
-            ee['bridges'].append({'name': c.name, 'ret': TY_BP[c.ret], 'params': params, 'body': c.text})
+            ee['bridges'].append({'name': c.name, 'ret': ret, 'params': params, 'body': c.text})
         elif c.kind in ('classop', 'instop'):
-            D['classes'][ix[c.cls]]['ops'].append({'name': c.name, 'instance': c.kind == 'instop', 'ret': TY_BP[c.ret],
+            D['classes'][ix[c.cls]]['ops'].append({'name': c.name, 'instance': c.kind == 'instop', 'ret': ret,
                                                    'params': params, 'body': c.text})
         else:
             D['classes'][ix[c.cls]]['attrs'].append({'name': c.name, 'type': 'integer', 'derived': c.text})
@@ -481,7 +516,7 @@ def run_case(case, res=None):
                 fail('derived-not-recomputed', 'after self.n += 5: read %r, reference %r\n%s' % (got2, want2, c.text))
     if res is not None:
         nt = (model.max_depth >= 2) or 'recursion' in features or 'bare-return' in features
-        cl = sorted('f:' + f for f in features if f in ('recursion', 'bare-return', 'param-shadowed', 'call-in-expression', 'call-statement',
+        cl = sorted('f:' + f for f in features if f in ('recursion', 'bare-return', 'param-shadowed', 'derived-early-return', 'call-in-expression', 'call-statement',
                                                         'return-in-loop', 'where', 'foreach', 'while'))
         cl.append('depth-%d' % min(model.max_depth, 4))
         res.case(case['tape'], nt and compared > 0,
